@@ -55,6 +55,14 @@ def norm(name, o):
     return ("ok", int(o[1]), o[2] if len(o) > 2 else "")
 
 
+def alias_lengths(ln):
+    """Long-form length fields declaring ln + m * 2^(8j): far more than any datagram holds, but equal to ln for code that
+    keeps only the low 8 / 16 / 32 / 64 bits of a length."""
+    return [bytes([0x82, 1, ln & 0xFF]) if ln < 256 else None, bytes([0x83, 1]) + (ln & 0xFFFF).to_bytes(2, "big"),
+            bytes([0x85, 1]) + ln.to_bytes(4, "big"), bytes([0x85, 0x80]) + ln.to_bytes(4, "big"), bytes([0x88, 0, 0, 0, 7]) + ln.to_bytes(4, "big"),
+            bytes([0x89, 1]) + ln.to_bytes(8, "big"), bytes([0x88, 1, 0, 0, 0]) + ln.to_bytes(4, "big")]
+
+
 def tamper_cases(rng, msgs):
     """Raise an inner short-form length so that the element runs past its parent
     while the bytes physically exist in the datagram."""
@@ -80,6 +88,12 @@ def tamper_cases(rng, msgs):
                 off = ce
                 idx += 1
         walk(0, len(m), len(m), 0)
+        # (c) the outermost length replaced by one that aliases it modulo 2^8 .. 2^64
+        if els and els[0][0] == 0:
+            off, cs, ce, pend = els[0]
+            for al in alias_lengths(ce - cs):
+                if al is not None:
+                    out.append((ver, m[:1] + al + m[cs:], "tamper-alias:%s" % label))
         # (b) lower the declared length of a constructed element: its children now run past it while
         # the bytes still exist in the enclosing element
         for off, cs, ce, pend in els:
@@ -121,6 +135,11 @@ def rig_r(chk, tier, seed):
                 for s in suffixes(rng, kind):
                     cases.append((name, x, s, cls))
                     lines.append(lines_for(name, x + s))
+                if len(x) >= 2 and x[1] < 0x80 and x[1] == len(x) - 2 and rng.random() < 0.3:
+                    for al in alias_lengths(x[1]):
+                        if al is not None:
+                            cases.append((name, x[:1] + al + x[2:], "ALIAS", cls))
+                            lines.append(lines_for(name, x[:1] + al + x[2:]))
             p, out = runner.ldrive(variant, lines)
             return cases, p, out
         cnt = 0
@@ -136,6 +155,13 @@ def rig_r(chk, tier, seed):
                 r = norm(name, o)
                 if r[0] == "panic":
                     chk.violation("panic:%s" % r[2].split(": ")[0].replace("/repo/", ""), "%s(%s) panicked: %s" % (name, (x + s).hex()[:80], r[2][:160]), {"x": x.hex(), "s": s.hex()})
+                    continue
+                if s == "ALIAS":
+                    # declared length = real length + m * 2^(8j): runs far past the input, must be refused
+                    if r[0] == "ok":
+                        chk.violation("alias:%s" % cls, "[%s] %s(%s): a length field declaring far more than the input holds was accepted (value %s)" % (
+                            variant, name, x.hex()[:60], r[2][:40]), {"rig": "R", "variant": variant, "decoder": name, "x": x.hex()})
+                    chk.distinct.add("R:alias")
                     continue
                 if s == b"":
                     base = r
@@ -182,7 +208,7 @@ def rig_r(chk, tier, seed):
                     chk.violation("panic:%s" % o[1].split(": ")[0].replace("/repo/", ""), "message decoder panicked on %s: %s" % (m.hex()[:80], o[1][:120]), {"m": m.hex()})
                 elif k == "alone":
                     alone_ok[label] = o[0] == "ok"
-                elif o[0] == "ok" and alone_ok.get(label.replace("tamper-lower:", "").replace("tamper:", ""), True):
+                elif o[0] == "ok" and alone_ok.get(label.replace("tamper-lower:", "").replace("tamper-alias:", "").replace("tamper:", ""), True):
                     chk.violation("msg-%s" % (label.split(":")[0] if k == "tamper" else k), "[%s] %s message (%s) was accepted: %s" % (variant, k, label, m.hex()[:160]),
                                   {"rig": "R", "variant": variant, "kind": k, "label": label, "m": m.hex()})
         st[variant] = {"cases": cnt, "x_not_decodable_alone_skipped": skipped[0]}
